@@ -541,6 +541,10 @@ func checkOnlyEOFEndsListing(c *Ctx, rule string) {
 		if !isNilConst(lf.v) || lf.pred == nil {
 			continue
 		}
+		// the nil a loop-carried variable starts with is not an error turned into success
+		if innermostLoop(loopsOf(fn), lf.block) != nil {
+			continue
+		}
 		n++
 		good := false
 		for cond, val := range edgeConds(lf.block, lf.pred) {
